@@ -636,6 +636,24 @@ func c06Suite(c *core.Collector, seed uint64, batch int, conns, nreq int, wraps 
 			}
 		}(i)
 	}
+	// quiet spells in real time (batch 0): 10.6 s of silence before the first message / in the middle of a conversation
+	if batch == 0 && !svc.RaceMode {
+		for i := 0; i < 2; i++ {
+			wg.Add(1)
+			go func(i int) {
+				defer wg.Done()
+				viol, incon, n := c06QuietSpell(srv.Addr, batch*1000+890+i, 10600*time.Millisecond)
+				c.Evals(int64(n))
+				c.Count("requests_answered_after_a_quiet_spell", 1)
+				if incon {
+					c.Inconclusive()
+				}
+				for _, v := range viol {
+					c.Violate(v[0], v[1], nil)
+				}
+			}(i)
+		}
+	}
 	// an upload whose reassembled length is congruent to its completing packet's length modulo 2^16
 	for i := 0; i < 2; i++ {
 		wg.Add(1)
